@@ -20,7 +20,7 @@ RULE = ('layered random workbooks (1-3 sheets, ragged constant rows, 8-10 formul
         'beyond the used range) x random schedules of 60 (thorough 200) calls mixing get_cell in four spellings, get_cells with '
         'repeats, get_sheet by index and title, with a second executor on the same class interleaved; the same schedules over the workbooks of '
         'the semantic checks (aggregates, criteria incl. ==-equal criteria of different kinds, rounding modes of one amount, text forms of '
-        'TRUE/1.0/FALSE/0.0, lookups). Non-trivial: a coordinate '
+        'TRUE/1.0/FALSE/0.0, lookups, date functions with and without holiday ranges, one workbook using all 40 functions). Non-trivial: a coordinate '
         'that was observed at least 3 times through at least 2 different APIs/spellings under a non-empty override set; '
         'distinct by (book, coordinate)')
 ASSUMPTIONS = ['a fresh Executor asked once is the reference observation', 'TODAY() is excluded (time-dependent by definition)',
@@ -284,16 +284,34 @@ def semantic_book(rng, kind):
         cells.update({'F1': keys[2] if keys[2] is not None else 1, 'G1': 2})
         cells.update(c14.FORMS)
         return wbspec.spec(wbspec.sheet('T', cells))
+    if kind == 'mixed':
+        from . import c20
+        return wbspec.spec(wbspec.sheet('S1', dict(c20.MIXED)))
+    if kind == 'dates':
+        import datetime as dt
+        d0 = dt.datetime(2024, 1, 1)
+        cells = {}
+        for i in range(1, 9):
+            cells[f'A{i}'] = d0 + dt.timedelta(days=rng.randrange(0, 40))
+            cells[f'B{i}'] = d0 + dt.timedelta(days=rng.randrange(30, 90))
+            cells[f'C{i}'] = d0 + dt.timedelta(days=rng.randrange(0, 90))           # holidays, several inside every span
+        for i in range(1, 9):
+            hol = rng.choice(['', ',C1:C8', ',C1:C3', ',C5:C8', f',C{i}:C{i}'])
+            cells[f'E{i}'] = f'=NETWORKDAYS(A{i},B{i}{hol})'
+            cells[f'F{i}'] = f'=DATEDIF(A{i},B{i},"{rng.choice(["D", "M", "Y", "YM"])}")'
+            cells[f'G{i}'] = rng.choice([f'=EDATE(A{i},{rng.randrange(-3, 14)})', f'=EOMONTH(B{i},{rng.randrange(-2, 3)})', f'=YEAR(A{i})*100+MONTH(B{i})',
+                                         f'=DATE(2024,{rng.randrange(-3, 15)},{rng.randrange(-5, 40)})', f'=DAY(C{i})'])
+        return wbspec.spec(wbspec.sheet('D', cells))
     raise ValueError(kind)
 
 
-SEM_KINDS = ['c11', 'c12', 'c12', 'c16', 'c17', 'c14']
+SEM_KINDS = ['c11', 'c12', 'c12', 'c16', 'c17', 'c14', 'dates', 'mixed', 'dates']
 
 
 def plan(tier, seed):
     n = 160 if tier == 'quick' else 1920
     sh = [{'n': n // 16, 'k': k, 'calls': 60 if tier == 'quick' else 200} for k in range(16)]
-    m = 48 if tier == 'quick' else 960
+    m = 72 if tier == 'quick' else 960
     sh += [{'n': m // 8, 'k': 100 + k, 'calls': 80 if tier == 'quick' else 250, 'semantic': True} for k in range(8)]
     return sh
 
@@ -310,9 +328,10 @@ def run_shard(shard, ctx):
         return
     for i in range(shard['n']):
         boundary.reset()
-        src = semantic_book(ctx.rng, SEM_KINDS[i % len(SEM_KINDS)]) if shard.get('semantic') else None
+        kind_ = SEM_KINDS[(i + shard['k'] * 4) % len(SEM_KINDS)]
+        src = semantic_book(ctx.rng, kind_) if shard.get('semantic') else None
         if src is not None:
-            r.count('semantic_books:' + SEM_KINDS[i % len(SEM_KINDS)])
+            r.count('semantic_books:' + kind_)
         run_book(ctx, shard['k'] * 1000 + i, shard['calls'], source=src)
         for d in boundary.disagreements()[:3]:
             r.violation('contract:' + d['contract'], dict(LAST_CASE), d['detail'], 'query leaves overrides and sizes unchanged')
